@@ -850,10 +850,11 @@ def run(ctx):
                 ctx.violation('spec:' + ','.join(res.violated), 'TLC: the mechanism does not yield the declarative rows',
                               {'behaviour': res.behaviour[:3000]}, 'MC')
         # the connection: up to 3 statements one after the other (any table, any FROM qualifiers on the default table)
-        res = tlc(ctx, 'MC_Ledger', 'MC_Ledger_conn.cfg', leg='MC', workers=4)
-        if res.violated:
-            ctx.violation('spec:' + ','.join(res.violated), 'TLC: a statement on a connection with a history does not present '
-                          'the ledger', {'behaviour': res.behaviour[:3000]}, 'MC')
+        for cfg, kw in [('MC_Ledger_conn.cfg', dict(workers=4))] + ([] if ctx.quick else [('MC_Ledger_conn3.cfg', {})]):
+            res = tlc(ctx, 'MC_Ledger', cfg, leg='MC', **kw)
+            if res.violated:
+                ctx.violation('spec:' + ','.join(res.violated), 'TLC: a statement on a connection with a history does not '
+                              'present the ledger', {'behaviour': res.behaviour[:3000]}, 'MC')
         tlc(ctx, 'MC_Ledger', 'MC_Ledger_skipfirst.cfg', leg='MC-nonvacuity', expect_violation='MechEqDecl', workers=2)
         tlc(ctx, 'MC_Ledger', 'MC_Ledger_rowid.cfg', leg='MC-nonvacuity', expect_violation='RowidInv', workers=2)
         tlc(ctx, 'MC_Ledger', 'MC_Ledger_inplace.cfg', leg='MC-nonvacuity', expect_violation='HistoryFree', workers=2)
